@@ -4,9 +4,94 @@ C17 — lemmas for the container theorems (PropsBpki.lean).  No Mathlib.
 import Bee2V.C17.ModelBpki
 import Bee2V.C17.Laws
 import Bee2V.C01.PropsWbl
+import Bee2V.C08.ContRT
 namespace Bee2V.C17
+open Bee2V.C01 (Cipher)
 open Bee2V.Gen.C17Src
 
 theorem iterMin_eq : iterMin = 10000 := by decide
+
+/-- Unwrap ∘ Wrap relative to the two DER codec round trips (supplied by C08 `ContRT` in PropsBpki) -/
+theorem pki_roundtrip_of_codec (C : Cipher) (hC : CipherOK C) (kind : PkiKind) (payload pwd salt epki : Bytes) (iter : Nat)
+    (hcodec1 : ∀ pki, pkiEnc kind payload = .ok pki → pkiDec kind pki = .ok (payload, pki.length) ∧ pki.length ≤ 200)
+    (hcodec2 : ∀ edata e, edata.length < 4294967296 → Bee2V.C08.bpkiEdataEnc edata salt iter = .ok e →
+      edataOpen e = .ok (edata, salt, iter))
+    (h : pkiWrap C kind payload pwd salt iter = (.ok, epki)) :
+    pkiUnwrap C kind epki pwd = (.ok, some payload) := by
+  unfold pkiWrap at h
+  dsimp only at h
+  by_cases hi : iter < Bee2V.Gen.C17Src.iterMin
+  · rw [if_pos hi] at h; cases h
+  · rw [if_neg hi] at h
+    by_cases hpc : payloadCheck kind payload ≠ .ok
+    · rw [if_pos hpc] at h
+      have := (Prod.mk.inj h).1
+      exact absurd this hpc
+    · rw [if_neg hpc] at h
+      have hpc' : payloadCheck kind payload = .ok := by simpa using hpc
+      cases he : pkiEnc kind payload with
+      | err => rw [he] at h; cases h
+      | oob => rw [he] at h; cases h
+      | ok pki =>
+        rw [he] at h; dsimp only at h
+        unfold epkiSeal at h
+        obtain ⟨e, o, hk⟩ : ∃ e o, Bee2V.C01.pbkdf2 C pwd iter salt = (e, o) := ⟨_, _, rfl⟩
+        rw [hk] at h
+        cases o with
+        | none =>
+          cases e <;> try (cases h)
+          unfold Bee2V.C01.pbkdf2 at hk
+          split at hk <;> cases hk
+        | some key =>
+          cases e <;> try (cases h)
+          dsimp only at h
+          obtain ⟨e2, o2, hw⟩ : ∃ e o, Bee2V.C01.kwpWrap C pki none key = (e, o) := ⟨_, _, rfl⟩
+          rw [hw] at h
+          cases o2 with
+          | none =>
+            cases e2 <;> try (cases h)
+            unfold Bee2V.C01.kwpWrap at hw
+            split at hw <;> cases hw
+          | some edata =>
+            cases e2 <;> try (cases h)
+            dsimp only at h
+            cases hee : Bee2V.C08.bpkiEdataEnc edata salt iter with
+            | err => rw [hee] at h; cases h
+            | oob => rw [hee] at h; cases h
+            | ok e3 =>
+              rw [hee] at h; cases h
+              -- the KWP facts: wrap succeeded, so the key length is admissible and the payload code has ≥ 16 octets
+              have hkw : ¬ (pki.length < 16 ∨ Bee2V.C01.validKeyLen key.length = false) := by
+                intro hb
+                have := (Bee2V.C01.kwpWrap_badInput_iff C pki none key).mpr hb
+                rw [hw] at this; cases this
+              have hk16 : 16 ≤ pki.length := by
+                have := not_or.mp hkw; omega
+              have hkv : Bee2V.C01.validKeyLen key.length = true := by
+                cases hv : Bee2V.C01.validKeyLen key.length
+                · exact absurd (Or.inr hv) hkw
+                · rfl
+              obtain ⟨tok, ht1, htl, ht2⟩ := Bee2V.C01.kwpUnwrap_kwpWrap C hC pki none key hk16 hkv (by intro h hh; cases hh)
+              rw [hw] at ht1
+              have htok : tok = edata := by cases ht1; rfl
+              subst htok
+              unfold pkiUnwrap
+              have hp200 := (hcodec1 pki he).2
+              rw [hcodec2 _ _ (by omega) hee]; dsimp only
+              rw [hk]; dsimp only
+              rw [ht2]; dsimp only
+              rw [(hcodec1 pki he).1]; dsimp only
+              rw [if_neg (by simp)]
+              -- the first-octet rule of shares was already enforced by Wrap
+              have hsh : ¬ (kind = .share ∧ ((payload.headD 0).toNat = 0 ∨ (payload.headD 0).toNat > 16)) := by
+                rintro ⟨hkd, hb⟩
+                subst hkd
+                simp only [payloadCheck] at hpc'
+                by_cases hb' : (payload.length ≠ 17 ∧ payload.length ≠ 25 ∧ payload.length ≠ 33) ∨
+                    (payload.headD 0).toNat = 0 ∨ (payload.headD 0).toNat > 16
+                · rw [if_pos hb'] at hpc'; cases hpc'
+                · exact hb' (Or.inr hb)
+              rw [if_neg hsh]
+
 
 end Bee2V.C17
